@@ -611,6 +611,8 @@ func runC18(c *Ctx, r *Report) {
 	preSignAdditionsAreInTheView(c, r, "R-C18.16")
 	r.Doc("R-C18.17", "the entry constructor stamps a constant format version on every path to the pre-sign and sign steps (only the current format's writer seals the links)")
 	writtenInTheCurrentFormat(c, r, "R-C18.17")
+	r.Doc("R-C18.18", "links are handled by their whole identifier (adopted from C07: a link transform that looks at the codec of a decoded link refuses sealed links to blocks of the sibling codec — readers with the key lose the entry and the history behind it)")
+	importRules(c, r, "C07", []string{"R-C07.11"}, "R-C18.18")
 	r.Doc("R-C18.12", "a fixed-size key or nonce buffer (an array, or a slice made with a constant length) is filled completely: the loop that copies into it covers every index (a byte left at zero makes keys that differ only there interchangeable and takes entropy out of the nonce)")
 	{
 		nfill := 0
